@@ -338,6 +338,12 @@ def _enum_value_filters(fn_node: ast.AST):
                             return x
             if isinstance(x, ast.Subscript) and isinstance(x.slice, ast.Slice):
                 return x
+            # `list({name_of(v): v for ... }.values())`: values whose derived keys coincide collapse into one (de-duplication by something else than the value)
+            if isinstance(x, ast.Call) and isinstance(x.func, ast.Attribute) and x.func.attr == "values":
+                srcs = [x.func.value] + ([v for _, v, _ in L.defs.get(x.func.value.id, []) if v is not None] if isinstance(x.func.value, ast.Name) else [])
+                for sv in srcs:
+                    if isinstance(sv, ast.DictComp) and norm(sv.key) != norm(sv.value):
+                        return x
         for x in ast.walk(e):
             if isinstance(x, ast.Name) and x is not e:
                 r = lossy(x, depth + 1)
@@ -363,7 +369,7 @@ def rule_enum_values_unfiltered(repo: Repo, rep, rule: str = "R3.20") -> None:
     hz, n = _enum_value_filters(ast.parse(_R320_EXAMPLE).body[0])
     rep.require(len(hz) == 1 and n == 1, f"{rule}: the built-in positive example is no longer recognised - the rule is broken")
     total = 0
-    for fq in ("core.parsing.schema_parser:_parse_schema", "core.parsing.schema_parser:_parse_properties"):
+    for fq in ("core.parsing.schema_parser:_parse_schema", "core.parsing.schema_parser:_parse_properties", "core.loader.loader:SpecLoader._create_unified_enum_schema"):
         try:
             fn = repo.func(fq)
         except AnalysisError:
@@ -374,8 +380,9 @@ def rule_enum_values_unfiltered(repo: Repo, rep, rule: str = "R3.20") -> None:
         if hz:
             c, r = hz[0]
             rep.violation(rule, sub, f"{fn.fq}|enum-values-filtered-by-truthiness",
-                          f"`{norm(r)[:70]}` removes every falsy entry of the document's enum list, not only null: `\"\"`, `0` and `false` are no members of the generated Enum and a "
-                          "conforming document that carries one of them cannot be structured", fn.loc(r))
+                          f"`{norm(r)[:70]}` takes entries out of the document's enum values by something else than `is None` (truthiness, a slice, a key that several values can share): "
+                          "`\"\"`, `0`, `false`, or one of two values whose derived names coincide (`sms-text` / `sms_text`) is no member of the generated Enum and a conforming document "
+                          "that carries it cannot be structured", fn.loc(r))
         elif n:
             rep.ok(rule, sub, f"{n} constructor argument(s): the document's list, unfiltered", fn.loc())
     rep.require(total >= 1, f"{rule}: no `IRSchema(enum=...)` argument found in the schema parser (anchor)")
